@@ -18,6 +18,10 @@ MODELS = {
                     "workers": 10, "timeout_quick": 600, "timeout_thorough": 3000,
                     "sample": "farm create/expand/close/auto-close, positions create(for)/expand/close(partial)/withdraw/emergency, "
                               "claims, swallowed refunds, reward denom = LP denom; custody, conservation, limits"},
+    "MC_Pool": {"module": "MC_Pool", "quick": "MC_Pool.cfg", "thorough": "MC_Pool_thorough.cfg",
+                "workers": 10, "timeout_quick": 600, "timeout_thorough": 3000,
+                "sample": "two constant-product pools sharing a denom, exact integer formulas with fees; deposits, single-asset "
+                          "deposits as swap;deposit composition, withdrawals, swaps, two-hop routes incl. a round trip, donations, toggles"},
 }
 
 
@@ -53,7 +57,19 @@ FAMILIES = {
                          {"name": "farm_replay", "spec": "Trace_Farm", "pre": farm_behaviours}]},
 }
 
+FAMILIES["pool"] = {"drivers": [{"name": "pool", "spec": "Trace_Pool"}, {"name": "stable", "spec": "Trace_Pool"}]}
+
 PROPS = {
+    "C01": {"level": "model_checking", "models": ["MC_Pool"], "families": ["pool"]},
+    "C02": {"level": "model_checking", "models": ["MC_Pool"], "families": ["pool"]},
+    "C03": {"level": "model_checking", "models": ["MC_Pool"], "families": ["pool"]},
+    "C04": {"level": "model_checking", "models": ["MC_Pool"], "families": ["pool"]},
+    "C12": {"level": "model_checking", "models": [], "families": ["pool"]},
+    "C13": {"level": "model_checking", "models": [], "families": ["pool"]},
+    "C14": {"level": "model_checking", "models": ["MC_Pool"], "families": ["pool"]},
+    "C16": {"level": "model_checking", "models": [], "families": ["pool"]},
+    "C17": {"level": "model_checking", "models": ["MC_Pool"], "families": ["pool"]},
+    "C19": {"level": "model_checking", "models": [], "families": ["pool"]},
     "C05": {"level": "model_checking", "models": ["MC_FarmLife"], "families": ["farm"]},
     "C06": {"level": "model_checking", "models": ["MC_Farm", "MC_FarmLife"], "families": ["farm"]},
     "C07": {"level": "model_checking", "models": ["MC_Farm"], "families": ["farm"]},
